@@ -19,7 +19,7 @@ translated may depend on it (answers that are sets are compared as sets by the c
 namespace TinyFlux.Py.Typed
 open TinyFlux.Model
 
-inductive PyErr | keyError | indexError | valueError | typeError | range
+inductive PyErr | keyError | indexError | valueError | typeError | range | assertionError
 deriving DecidableEq, Repr
 
 abbrev M := Except PyErr
@@ -185,6 +185,11 @@ def append (s : Storage) (rows : List TinyFlux.Spec.Point) (temporary : Bool) : 
 def _swap_temp_with_primary (s : Storage) : M Storage := pure { _items := s._temp, _temp := [] }
 /-- `storage.reset()` -/
 def reset (s : Storage) : M Storage := pure { s with _items := [] }
+/-- `storage.can_read / can_write / can_append`: at the list level every storage is open for everything (the access modes of
+    `CSVStorage` and the gates built on them are `Generated/Modes.lean`, `Generated/Decorators.lean`: C15) -/
+def can_read (_ : Storage) : Bool := true
+def can_write (_ : Storage) : Bool := true
+def can_append (_ : Storage) : Bool := true
 /-- `len(storage)`: the number of records -/
 def __len__ (s : Storage) : Nat := s._items.length
 /-- `storage._deserialize_timestamp(row)` -/
